@@ -238,17 +238,104 @@ def parse_final(s):
     return {'L': items(parts.get('L', '')), 'P': items(parts.get('P', '')), 'S': items(parts.get('S', '')), 'R': [r for r in parts.get('R', '').split(';') if r]}
 
 
+def merge_writes(evs):
+    out = []
+    for e in evs:
+        t = e.split(' ')
+        if t[0] == 'write' and out and out[-1].split(' ')[:3] == t[:3]:
+            a = out[-1].split(' ')[3]
+            b = t[3]
+            out[-1] = ' '.join(t[:3] + [(('' if a == '-' else a) + ('' if b == '-' else b)) or '-'])
+        elif t[0] == 'write' and t[3] == '-':
+            # an empty write changes nothing; keep one empty write only if it is the sole write of the handle (normal form: dropped)
+            continue
+        else:
+            out.append(e)
+    return out
+
+
+PROGRAM_SCENARIOS = {'add': 'add', 'add_flat': 'add', 'add_dup': 'add', 'add_big': 'add', 'loosen': 'add',
+                     'pack': 'pack', 'pack_clean': 'pack', 'pack_small': 'pack', 'pack_auto': 'pack', 'pack_nofsync': 'pack',
+                     'pack_nofsync_clean': 'pack', 'pack_novalidate': 'pack', 'pack_then_clean': 'pack', 'clean': 'clean', 'delete': 'delete'}
+
+
+def program_lines(name, ev, run, keys):
+    """inputs of the model programs (Programs.v) recovered from the implementation run: contents, orders, blobs are oracles"""
+    kind = PROGRAM_SCENARIOS.get(name)
+    if not kind:
+        return None
+    post = run['post']
+    lines = []
+    if kind == 'add':
+        chunks = [e.split(' ')[3] for e in ev if e.startswith('write s 1 ')]
+        chunks = [c for c in chunks if c != '-']
+        lines.append('X add 1 ' + ';'.join(chunks) if chunks else 'X add 1')
+        return lines
+    if kind == 'delete':
+        ks = [e.split(' ')[1] for e in ev if e.startswith('unlinkloose ')]
+        lines.append('X delete ' + ','.join(ks))
+        return lines
+    if kind == 'clean':
+        ks = [e.split(' ')[1] for e in ev if e.startswith('unlinkloose ')]
+        vac = 1 if ev[:2] == ['commit', 'commit'] else 0
+        lines.append((f'X clean {vac} ' + ','.join(ks)).rstrip())
+        return lines
+    # pack: one program per openpack segment, a trailing clean_storage if loose files are unlinked after the last commit
+    segs = []
+    cur = None
+    for e in ev:
+        t = e.split(' ')
+        if t[0] == 'openpack':
+            cur = {'id': t[1], 'rows': [], 'fsync': False, 'unlinks': [], 'committed': False}
+            segs.append(cur)
+        elif cur is not None:
+            if t[0] == 'insert' and len(t) > 2:
+                cur['rows'] += t[2].split(';')
+            elif t[0] == 'fsync':
+                cur['fsync'] = True
+            elif t[0] == 'commit':
+                cur['committed'] = True
+            elif t[0] == 'unlinkloose':
+                cur['unlinks'].append(t[1])
+    for i, sg in enumerate(segs):
+        objs = []
+        row_keys = []
+        for r in sg['rows']:
+            k, pid, off, ln, comp, size = r.split(',')
+            data = bytes.fromhex(post['packs'].get(pid, ''))
+            blob = data[int(off):int(off) + int(ln)]
+            objs.append(f'{k},{hx(blob)},{comp},{size}')
+            row_keys.append(k)
+        per_pack_clean = sg['unlinks'][:len(row_keys)] == row_keys and len(row_keys) > 0
+        lines.append(f"X pack {sg['id']} {1 if sg['fsync'] else 0} {1 if per_pack_clean else 0} {';'.join(objs)}")
+        rest = sg['unlinks'][len(row_keys):] if per_pack_clean else sg['unlinks']
+        if rest:
+            lines.append('X clean 0 ' + ','.join(rest))
+    return lines
+
+
 def check_scenario(name, power_loss_expected=True):
     run = run_scenario(name)
     if 'error' in run:
         return {'name': name, 'error': run['error']}
     lines, keys, ev, ignored, unknown = build_block(run)
+    plines = program_lines(name, ev, run, keys)
+    if plines:
+        lines = lines[:-1] + plines + [lines[-1]]
     r = subprocess.run([os.path.join(common.OCAML, 'driver')], input='\n'.join(lines) + '\n', capture_output=True, text=True, timeout=600)
     out = r.stdout.strip().splitlines()
     if not out or out[-1].startswith('ERROR'):
         return {'name': name, 'error': 'driver: ' + (out[-1] if out else r.stderr[-300:]), 'events': ev[:50]}
-    m = re.match(r'crash=(\S+) pl=(\S+) mono=(\S+) c13=(\S+) final=(.*)$', out[-1])
-    fin = parse_final(m.group(5))
+    m = re.match(r'crash=(\S+) pl=(\S+) mono=(\S+) c13=(\S+) prog=(.*) final=(.*)$', out[-1])
+    fin = parse_final(m.group(6))
+    prog_model = merge_writes([e for e in m.group(5).split('/') if e])
+    prog_impl = merge_writes(ev)
+    prog_diff = None
+    if plines:
+        if prog_model != prog_impl:
+            i = next((i for i, (a, b) in enumerate(zip(prog_model, prog_impl)) if a != b), min(len(prog_model), len(prog_impl)))
+            prog_diff = {'at': i, 'model': (prog_model[i][:80] if i < len(prog_model) else None), 'impl': (prog_impl[i][:80] if i < len(prog_impl) else None),
+                         'len_model': len(prog_model), 'len_impl': len(prog_impl)}
     els, eps, ers = expected_final(run, keys)
     got_ls = sorted(f'{k}:{d}' for k, d, _ in fin['L'])
     got_ps = sorted(f'{k}:{d}' for k, d, _ in fin['P'])
@@ -261,7 +348,7 @@ def check_scenario(name, power_loss_expected=True):
     if sorted(fin['R']) != sorted(ers):
         diffs.append(f'index rows differ: model {sorted(fin["R"])[:3]} vs disk {sorted(ers)[:3]}')
     unsynced = [k for k, d, s in fin['P'] if d != s]
-    return {'name': name, 'crash': m.group(1), 'pl': m.group(2), 'mono': m.group(3), 'c13': m.group(4), 'world_diffs': diffs, 'n_events': len(ev), 'ignored': ignored, 'unknown': unknown[:5],
+    return {'name': name, 'crash': m.group(1), 'pl': m.group(2), 'mono': m.group(3), 'c13': m.group(4), 'program': bool(plines), 'prog_diff': prog_diff, 'world_diffs': diffs, 'n_events': len(ev), 'ignored': ignored, 'unknown': unknown[:5],
             'events': ev, 'unsynced_packs_at_end': unsynced}
 
 
@@ -277,7 +364,8 @@ def check_traces(ck, pid, baselines=None, names=None):
     names = [n for n in names if n not in scen.DAMAGED_PRE]
     with ThreadPoolExecutor(common.NPROC) as ex:
         results = list(ex.map(check_scenario, names))
-    bad_sem, bad_mon, bad_pl, bad_mono, bad_c13, bad_fd = [], [], [], [], [], []
+    bad_sem, bad_mon, bad_pl, bad_mono, bad_c13, bad_fd, bad_prog = [], [], [], [], [], [], []
+    nprog = 0
     total_events = 0
 
     def at(r, key):
@@ -290,6 +378,10 @@ def check_traces(ck, pid, baselines=None, names=None):
         total_events += r['n_events']
         if r['world_diffs'] or r['unknown']:
             bad_sem.append(f"{r['name']}: {r['world_diffs']} unknown events {r['unknown']}")
+        if r.get('program'):
+            nprog += 1
+            if r['prog_diff']:
+                bad_prog.append(f"{r['name']}: {r['prog_diff']}")
         if r['crash'] != 'ok':
             bad_mon.append(at(r, 'crash'))
         if r['pl'] != 'ok' and r['name'] not in scen.NON_DEFAULT_FSYNC:
@@ -298,10 +390,21 @@ def check_traces(ck, pid, baselines=None, names=None):
             bad_mono.append(at(r, 'mono'))
         if r['name'] in NOREPACK_SCENARIOS and r['c13'] != 'ok':
             bad_c13.append(at(r, 'c13'))
+    rej = getattr(ck, 'rejected_scenarios', set())
+    for r in results:
+        if 'error' not in r and (r['crash'] != 'ok' or r['world_diffs'] or (r['pl'] != 'ok' and r['name'] not in scen.NON_DEFAULT_FSYNC)):
+            rej.add(r['name'])
+    ck.rejected_scenarios = rej
     ck.cov['traces_validated_against_impl'] = ck.cov.get('traces_validated_against_impl', 0) + len(results)
     ck.cov['trace_events'] = ck.cov.get('trace_events', 0) + total_events
     ck.obligation('correspondence: Store.apply_ev over the intercepted trace of each scenario ends in exactly the folder read raw (event semantics vs OS/SQLite), no unknown event',
                   not bad_sem, '; '.join(bad_sem)[:1200], kind='correspondence')
+    if nprog:
+        ck.obligation(f'correspondence: the Gallina programs (Programs.p_add_loose / p_pack_one / p_clean / p_delete), run on the inputs recovered from '
+                      f'the implementation run, generate exactly the implementation\'s event trace ({nprog} scenarios)', not bad_prog, '; '.join(bad_prog)[:1200], kind='correspondence')
+        for r in results:
+            if r.get('prog_diff'):
+                getattr(ck, 'rejected_scenarios', set()).add(r['name'])
     if pid in ('C05', 'C17', 'C03', 'C02', 'C09', 'C11', 'C10', 'C14', 'C01'):
         ck.obligation('discipline: verified monitor (Store.monitor / monitor_sound) accepts every crash point of every implementation trace',
                       not bad_mon, '; '.join(bad_mon)[:1200], kind='correspondence')
@@ -318,3 +421,21 @@ def check_traces(ck, pid, baselines=None, names=None):
     if good:
         ck.sample({'scenario': good[0]['name'], 'model_events': [e[:70] for e in good[0]['events'][:25]]})
     return results
+
+
+def crash_search(ck, pid, powerloss=False):
+    """extended search used when the monitor / the event semantics reject an implementation trace: kill the real process at every
+    gated call of the rejected scenarios and examine the folder (raw + new handle)"""
+    def search(broken):
+        import sweep
+        names = sorted(getattr(ck, 'rejected_scenarios', set()))
+        if not names:
+            return None
+        before = len(ck.concrete)
+        for pl in ([True] if powerloss else [False, True]):
+            sweep.sweep(ck, pid, names, 'kill', powerloss=pl)
+            if len(ck.concrete) > before:
+                c = ck.concrete[before]
+                return (c['what'] + ' (found by killing the process at every gated call of the scenario whose trace the verified monitor rejects)', c['case'])
+        return None
+    return search
